@@ -133,6 +133,39 @@ def one_case(kind, mk, typ, empty, x):
     return errs
 
 
+def tie_sweep():
+    """money lines at exact binary ties: n + k/8 (ties at 2 places), n + 1/2 (ties at 0 places), n + k/16 (3 places),
+    n + k/64 (5 places), n = 0..4999, both signs -> [(kind, x, message)], number of calls"""
+    errs, n = [], 0
+    plan = [(0, [fractions.Fraction(1, 2)]), (2, [fractions.Fraction(k, 8) for k in (1, 3, 5, 7)]), (None, [fractions.Fraction(k, 8) for k in (1, 3, 5, 7)]),
+            (3, [fractions.Fraction(k, 16) for k in (1, 3, 5, 7, 9, 11, 13, 15)]), (5, [fractions.Fraction(k, 64) for k in (1, 21, 43, 63)])]
+    for places, fracs in plan:
+        kind = 'float-default' if places is None else f'float{places}'
+        box = {}
+        fld = hf.FloatField('7', lambda s, i, v: box['x']) if places is None else hf.FloatField('7', lambda s, i, v: box['x'], places=places)
+
+        class _Form(object):
+            def name(self):
+                return 'tt'
+        fld.__form_init__(_Form())
+        q = decimal.Decimal(1).scaleb(-(2 if places is None else places))
+        for whole in range(5000):
+            for fr in fracs:
+                for sign in (1, -1):
+                    x = sign * float(whole + fr)
+                    box['x'] = x
+                    n += 1
+                    try:
+                        got = fld.value({}, {})
+                    except Exception as e:
+                        errs.append((kind, x, f'{x!r} on a {kind} line raised {type(e).__name__}: {e}'))
+                        continue
+                    exp = float(decimal.Decimal(x).quantize(q, rounding=decimal.ROUND_HALF_EVEN))
+                    if type(got) is not float or got != exp:
+                        errs.append((kind, x, f'{x!r} on a {kind} line is stored as {got!r}, expected {exp!r} (round to {q} places, ties to even)'))
+    return errs, n
+
+
 def mirror_types():
     """every input of every input-only form is mirrored by a line of the matching type"""
     errs, n = [], 0
@@ -173,6 +206,15 @@ def run(tier):
     run.states += n
     run.transitions += n
     run.traces += 2 * n
+    terrs, nt = tie_sweep()
+    run.count('tie_sweep_calls', nt)
+    run.evaluations += nt
+    seen_t = set()
+    for kind, x, m in terrs:
+        k = f'C12|ties|{kind}|{"neg" if x < 0 else "pos"}'
+        if k not in seen_t:
+            seen_t.add(k)
+            run.violation(k, dict(engine='ties', kind=kind, value=x), m + f' ({sum(1 for e in terrs if e[0] == kind)} such amounts on {kind} lines)')
     errs, nm = mirror_types()
     run.count('mirror_lines', nm)
     run.evaluations += nm
@@ -193,5 +235,9 @@ def replay(case):
                     if repr(x) == case['value']:
                         errs = one_case(kind, mk, typ, empty, x)
                         return (not errs), (errs[0] if errs else 'passes')
+    if case.get('engine') == 'ties':
+        terrs, nt = tie_sweep()
+        terrs = [e for e in terrs if e[0] == case['kind']]
+        return (not terrs), (terrs[0][2] if terrs else f'{nt} tie amounts are rounded to even')
     errs, n = mirror_types()
     return (not errs), (str(errs[:1]) if errs else 'passes')
